@@ -62,7 +62,7 @@ type Hook struct {
 	Path string `json:"path,omitempty"`
 }
 type Action struct {
-	Kind string `json:"kind"` // Boot Tick KubeEv Finish Stop
+	Kind string `json:"kind"` // Boot Tick KubeEv Finish Stop FinishWait Elapse
 	C    int    `json:"c,omitempty"`
 	Mon  int    `json:"mon,omitempty"`
 	Obj  int    `json:"obj,omitempty"`
@@ -72,6 +72,10 @@ type Action struct {
 	// keyed by the environment variable that names the file
 	Exit  int               `json:"exit,omitempty"`
 	Files map[string]string `json:"files,omitempty"`
+	// FinishWait only: the positive back-off delay is a short one (shorter than the queue's
+	// wait-loop check interval) that elapses by itself; the next action must then be Stop or
+	// Elapse of the same queue (RunScenario clears the flag otherwise)
+	Short bool `json:"short,omitempty"`
 }
 type Input struct {
 	Cfg  []Hook   `json:"cfg"`
@@ -103,6 +107,7 @@ type QObs struct {
 	Items         []TaskObs `json:"items"`
 	Running       bool      `json:"running"`
 	WorkerStopped bool      `json:"worker_stopped"`
+	Delayed       bool      `json:"delayed,omitempty"` // the worker waits in a back-off delay
 }
 type ExecObs struct {
 	Queue int      `json:"queue"`
@@ -452,10 +457,25 @@ type Sim struct {
 	booted   bool
 	Backoffs []int // failure counts passed to the queues' back-off function
 	boMu     sync.Mutex
+	waitNext map[int]int        // queue -> 1: the next back-off is long, 2: short
+	delayed  map[int]*delayInfo // queues whose worker waits in a back-off delay
+	elapsing map[int]bool       // long delays being cancelled
+	Timing   string             // a short delay could not be hit in time (the run is repeated)
 	cancel   context.CancelFunc
 	// ExitFiles lets a property driver decide what a finishing hook writes
 	ExitFiles func(q int, ok bool) map[string]string
 }
+
+type delayInfo struct {
+	short bool
+	since time.Time
+}
+
+const (
+	shortDelay    = 150 * time.Millisecond
+	shortInterval = 300 * time.Millisecond
+	fastInterval  = 200 * time.Microsecond
+)
 
 func NewSim(in Input) (*Sim, error) {
 	setTimings()
@@ -463,7 +483,8 @@ func NewSim(in Input) (*Sim, error) {
 	if err != nil {
 		return nil, err
 	}
-	s := &Sim{In: in, Dir: dir, open: map[int]*Call{}, monNum: map[string]int{}, hookV0: map[int]bool{}, bindingQ: map[int]int{}}
+	s := &Sim{In: in, Dir: dir, open: map[int]*Call{}, monNum: map[string]int{}, hookV0: map[int]bool{}, bindingQ: map[int]int{},
+		waitNext: map[int]int{}, delayed: map[int]*delayInfo{}, elapsing: map[int]bool{}}
 	hooksDir := filepath.Join(dir, "hooks")
 	tmpDir := filepath.Join(dir, "tmp")
 	os.MkdirAll(hooksDir, 0o755)
@@ -638,6 +659,21 @@ func (s *Sim) settle(step *StepObs) {
 			qn := queueNum(n)
 			items, status := s.snapshotQueue(n)
 			if _, isOpen := s.open[qn]; isOpen {
+				delete(s.elapsing, qn)
+				if q := s.Op.TaskQueues.GetByName(n); q != nil && q.WaitLoopCheckInterval != fastInterval {
+					q.WaitLoopCheckInterval = fastInterval // the worker is inside the handler
+				}
+				continue
+			}
+			if s.elapsing[qn] && !s.stopped {
+				if q := s.Op.TaskQueues.GetByName(n); q != nil {
+					q.CancelTaskDelay()
+				}
+			}
+			s.boMu.Lock()
+			_, isDelayed := s.delayed[qn]
+			s.boMu.Unlock()
+			if isDelayed && !s.stopped {
 				continue
 			}
 			if s.stopped {
@@ -725,6 +761,10 @@ func (s *Sim) observe(step *StepObs) {
 		}
 		_, qo.Running = s.open[qn]
 		qo.WorkerStopped = status == "stop"
+		s.boMu.Lock()
+		_, qo.Delayed = s.delayed[qn]
+		s.boMu.Unlock()
+		qo.Delayed = qo.Delayed && !s.stopped
 		step.Queues = append(step.Queues, qo)
 	}
 	var keys []int
@@ -803,10 +843,23 @@ func (s *Sim) Do(a Action) StepObs {
 			s.booted = true
 			s.Op.TaskQueues.DoWithLock(func(tqs *queue.TaskQueueSet) {
 				for _, q := range tqs.Queues {
+					qq, qn := q, queueNum(q.Name)
 					q.ExponentialBackoffFn = func(failureCount int) time.Duration {
+						// runs in the worker of queue qn, between the handler's return and waitForTask
 						s.boMu.Lock()
+						defer s.boMu.Unlock()
 						s.Backoffs = append(s.Backoffs, failureCount)
-						s.boMu.Unlock()
+						switch s.waitNext[qn] {
+						case 1:
+							delete(s.waitNext, qn)
+							s.delayed[qn] = &delayInfo{since: time.Now()}
+							return time.Hour
+						case 2:
+							delete(s.waitNext, qn)
+							s.delayed[qn] = &delayInfo{short: true, since: time.Now()}
+							qq.WaitLoopCheckInterval = shortInterval
+							return shortDelay
+						}
 						return 0
 					}
 				}
@@ -833,7 +886,27 @@ func (s *Sim) Do(a Action) StepObs {
 				s.sentinelKube()
 			}
 		}
-	case "Finish":
+	case "Elapse":
+		s.boMu.Lock()
+		d, ok := s.delayed[a.Q]
+		delete(s.delayed, a.Q)
+		s.boMu.Unlock()
+		if ok && !s.stopped && !d.short {
+			s.elapsing[a.Q] = true // settle cancels the delay until the worker has picked its task
+		}
+		// a short delay elapses by itself: settle waits for the execution
+	case "Finish", "FinishWait":
+		if a.Kind == "FinishWait" {
+			a.Ok = false
+			if _, isOpen := s.open[a.Q]; isOpen {
+				s.boMu.Lock()
+				s.waitNext[a.Q] = 1
+				if a.Short {
+					s.waitNext[a.Q] = 2
+				}
+				s.boMu.Unlock()
+			}
+		}
 		if c, ok := s.open[a.Q]; ok {
 			r := Reply{}
 			if !a.Ok {
@@ -855,9 +928,30 @@ func (s *Sim) Do(a Action) StepObs {
 		if s.booted && !s.stopped {
 			s.Op.Shutdown()
 			s.stopped = true
+			s.boMu.Lock()
+			for _, d := range s.delayed {
+				if d.short && time.Since(d.since) > shortDelay-10*time.Millisecond {
+					s.Timing = "Shutdown returned too late to be sure it landed inside a short back-off delay"
+				}
+			}
+			s.boMu.Unlock()
 		}
 	}
+	if a.Kind != "Stop" && a.Kind != "Elapse" {
+		s.boMu.Lock()
+		for _, d := range s.delayed {
+			if d.short && !s.stopped {
+				s.Timing = "an action other than Stop / Elapse while a short back-off delay is pending"
+			}
+		}
+		s.boMu.Unlock()
+	}
 	s.settle(&step)
+	if a.Kind == "FinishWait" {
+		s.boMu.Lock()
+		delete(s.waitNext, a.Q) // not consumed: the failure was allowed, or the queue was stopped
+		s.boMu.Unlock()
+	}
 	s.observe(&step)
 	return step
 }
